@@ -87,6 +87,18 @@ var specs = map[string]propSpec{
 		},
 		Assumptions: refAssumptions("addr(n) uses child::node()[i] steps (C03 fragment) and @name for attributes (attribute names are unique per element)"),
 	},
+	"C04": {
+		Units: []unitSpec{
+			{Name: "rapid-histories", Test: "TestC04Rapid", Rapid: true, QuickChecks: 25000, ThoroughChecks: 400000, QuickShards: 4, ThoroughShards: 16},
+		},
+		Assumptions: append([]string{"the oracle is the engine itself on a freshly compiled expression (self-differential); the value's correctness is the business of C01-C03, C07-C09"}, commonAssumptions...),
+	},
+	"C05": {
+		Units: []unitSpec{
+			{Name: "rapid-goroutines", Test: "TestC05Rapid", Rapid: true, Race: true, QuickChecks: 400, ThoroughChecks: 6000, QuickShards: 4, ThoroughShards: 10},
+		},
+		Assumptions: append([]string{"schedules are sampled, not enumerated: the harness owns overlap (start barrier, repetitions) and the Go race detector flags unsynchronised access pairs on the schedules that occurred; a race needing a window the stress did not hit can be missed", "expected values are the engine's own sequential results on a freshly compiled expression"}, commonAssumptions...),
+	},
 	"C07": {
 		Units: []unitSpec{
 			{Name: "rapid-comparisons", Test: "TestC07Rapid", Rapid: true, QuickChecks: 60000, ThoroughChecks: 700000, QuickShards: 4, ThoroughShards: 16},
